@@ -193,6 +193,13 @@ class VLock(object):
             self.owner = "main"
             return True
         s.yield_point(("acquire", self.name))
+        if blocking and timeout is not None and timeout >= 0 and self.owner is not None:
+            # a timed wait: virtual time has no clock, so the wait may expire whenever the scheduler has let others run once -
+            # the holder may legitimately keep the lock longer than any finite timeout
+            VLock.timed_waits = getattr(VLock, "timed_waits", 0) + 1
+            s.yield_point(("timed_wait", self.name))
+            if self.owner is not None:
+                return False
         while self.owner is not None:
             if not blocking:
                 return False
